@@ -164,6 +164,26 @@ def run_gt(case):
             if not (isinstance(have, Poly) and have == w):
                 fails.append(_fail(f"({order})(y) == sum_x cfg(x)*fst(x,y)", dict(inp0, order=order, y=list(y)), have, w))
                 break
+        if not isinstance(comp, str) and order == "cfg@fst" and (case.get("tname") or len(ops) <= 3):
+            # second step on the RESULT (non-initial state): truncation and a further composition
+            if EPS in comp.V:
+                fails.append(_fail("vocabulary of the composed grammar excludes epsilon", dict(inp0, order=order), sorted(map(repr, comp.V)), "no epsilon"))
+            tr = _call(comp.truncate_length, 1)
+            for y in strings_upto(outs, p["ylen"]):
+                w = want.get(y, Poly.zero) if len(y) <= 1 else Poly.zero
+                have = eval_grammar(tr, y)
+                evals += 1
+                if not (isinstance(have, Poly) and have == w):
+                    fails.append(_fail("(cfg@fst).truncate_length(n) keeps exactly the strings <= n", dict(inp0, n=1, y=list(y)), have, w))
+                    break
+            for y in list(strings_upto(outs, 2))[:5]:
+                c2 = _call(lambda: comp @ tuple(y))
+                have = c2 if isinstance(c2, str) else _call(c2.treesum)
+                evals += 1
+                w = want.get(tuple(y), Poly.zero)
+                if not (isinstance(have, Poly) and have == w):
+                    fails.append(_fail("treesum((cfg@fst) @ y) == (cfg@fst)(y)", dict(inp0, y=list(y)), have, w))
+                    break
         if not isinstance(comp, str) and order == "cfg@fst":
             # the library's own evaluation of the composed grammar on one string
             for y in list(strings_upto(outs, 1)):
